@@ -242,6 +242,11 @@ def build_world(block):
         deriv.add_clause("verif_knockout", lambda d, payoff: payoff.where(
             d.ul().spot.max(-1).values < 1.5, torch.zeros_like(payoff)))
         deriv.add_clause("verif_cap", lambda d, payoff: payoff.clamp(max=0.25))
+    if block.get("multiplier"):
+        # contract multiplier (a power of two, so the payoff stays exactly representable): the payoff is
+        # many orders above the hedge wealth, which the portfolio value must not feel at all
+        mult = float(2 ** block["multiplier"])
+        deriv.add_clause("verif_multiplier", lambda d, payoff: payoff * mult)
     hv = block["hedge"]
     stock2 = None
     if hv in ("stock+stock2",):
@@ -301,7 +306,7 @@ def hedger_pl(ctx, block):
     # otherwise a derived rounding tolerance (8*H*T*eps*scale) - mutations move values at O(1e-2).
     exact = (block["model"] in ("linear", "linear_prev", "naked") and block["derivative"] in (
         "european", "lookback", "european_binary", "american_binary") and block["dtype"] == "float64"
-        and (block["model"] != "linear_prev" or block["T"] <= 3))
+        and (block["model"] != "linear_prev" or block["T"] <= 3) and not block.get("multiplier"))
     base_spot = stock.get_buffer("spot").clone()
     rounds = block.get("rounds", [0])
     for r in rounds:
@@ -317,6 +322,18 @@ def hedger_pl(ctx, block):
             finally:
                 sim.remove()
         _hedger_round(ctx, block, hedger, deriv, hedge, exact, r)
+    if block.get("swap"):
+        # the SAME derivative object gets another underlier (attribute assignment), then the same hedger
+        # is asked again with the default hedge: prices, cost rate and payoff are those of the new stock
+        dtype = DT[block["dtype"]]
+        other = market.primary("brownian", dtype=dtype, cost=5 / SCALE / 16, dt=market.DT, sigma=0.5)
+        market.set_buffers(other, spot=round_paths(base_spot, 2))
+        deriv.underlier = other
+        _hedger_round(ctx, block, hedger, deriv, hedge, exact, "swap")
+        # ... and a different derivative object on the first stock
+        kw = {"strike": 1.0}
+        deriv2 = market.derivative("european", stock, T=block["T"], **kw)
+        _hedger_round(ctx, block, hedger, deriv2, hedge, exact, "newderiv")
 
 
 def _hedger_round(ctx, block, hedger, deriv, hedge, exact, r):
@@ -344,19 +361,22 @@ def _hedger_round(ctx, block, hedger, deriv, hedge, exact, r):
         e_pl = e_pf - Fraction(zl[i])
         scale = sum(abs(x) for row in ul[i] for x in row) * max(abs(x) for row in sl[i] for x in row) + abs(zl[i]) + 1
         tol = 0 if exact else 8 * H * T * eps * scale
+        # the portfolio value does not involve the payoff: its rounding bound must not either
+        tol_pf = 0 if exact else 8 * H * T * eps * (scale - abs(zl[i]))
         for name, got, exp in (("compute_pl", pll[i], e_pl), ("compute_portfolio", pfl[i], e_pf)):
-            ok = (Fraction(got) == exp) if tol == 0 else abs(Fraction(got) - exp) <= tol
+            tol_n = tol if name == "compute_pl" else tol_pf
+            ok = (Fraction(got) == exp) if tol == 0 else abs(Fraction(got) - exp) <= tol_n
             if got != got:
                 ok = False
             if not ok:
                 mini = dict(block)
-                if r == 0:
+                if r == 0 and not block.get("swap"):
                     base = block.get("rows")
                     mini["rows"] = [base[i] if base is not None else i]
                     mini["rounds"] = [0]
                 zero_cost = any(c == 0 for c in costs) and any(c != 0 for c in costs)
                 ctx.violation("Hedger." + name,
-                              f"identity_{block['hedge']}" + ("_mixedcost" if zero_cost else "") + (f"_round{r}" if r else ""),
+                              f"identity_{block['hedge']}" + ("_mixedcost" if zero_cost else "") + ("_multiplier" if block.get("multiplier") else "") + (f"_round{r}" if r else ""),
                               f"{name} != wealth identity on hedge list {block['hedge']} "
                               f"(model={block['model']}, derivative={block['derivative']}, costs={costs}, "
                               f"after {r} re-simulation(s))",
@@ -476,3 +496,15 @@ def run(ctx):
             b2 = dict(block)
             b2["call"] = False
             ctx.run("hedger_pl", b2)
+        if T == 3 and dk == "european" and mv in ("linear", "linear_prev") and hv in ("default", "stock+listed"):
+            b6 = dict(block)
+            b6["multiplier"] = 20 if dtype == "float32" else 45
+            b6["rounds"] = [0]
+            b6["pnl"] = False
+            ctx.run("hedger_pl", b6)
+        if T == 3 and hv == "default" and dtype == "float64" and mv in ("linear", "linear_prev", "bs") and dk in ("european", "lookback"):
+            b7 = dict(block)
+            b7["swap"] = True
+            b7["rounds"] = [0]
+            b7["pnl"] = False
+            ctx.run("hedger_pl", b7)
